@@ -160,6 +160,13 @@ def _build_func_identifier(func):
 # source code to check if a function definition has changed
 _FUNCTION_HASHES = weakref.WeakKeyDictionary()
 
+# For each (store location, function identifier), the hash of the function
+# whose source code this process last wrote to func_code.py. Several live
+# functions can share an identifier (a function redefined under the same
+# name): the in-memory shortcut only holds for the one that wrote the code
+# currently stored.
+_FUNC_CODE_WRITERS = {}
+
 
 ###############################################################################
 # class `MemorizedResult`
@@ -665,6 +672,8 @@ class MemorizedFunc(Logger):
         # file. This is bad practice, but joblib should be robust to bad
         # practice.
         func_code = "%s %i\n%s" % (FIRST_LINE_TEXT, first_line, func_code)
+        writer_key = (self.store_backend.location, self.func_id)
+        _FUNC_CODE_WRITERS.pop(writer_key, None)
         self.store_backend.store_cached_func_code([self.func_id], func_code)
 
         # Also store in the in-memory store of function hashes
@@ -677,6 +686,7 @@ class MemorizedFunc(Logger):
             func_hash = self._hash_func()
             try:
                 _FUNCTION_HASHES[self.func] = func_hash
+                _FUNC_CODE_WRITERS[writer_key] = func_hash
             except TypeError:
                 # Some callable are not hashable
                 pass
@@ -696,7 +706,13 @@ class MemorizedFunc(Logger):
                 # hash. This is more likely to falsely change than have hash
                 # collisions, thus we are on the safe side.
                 func_hash = self._hash_func()
-                if func_hash == _FUNCTION_HASHES[self.func]:
+                writer_key = (self.store_backend.location, self.func_id)
+                if (
+                    func_hash == _FUNCTION_HASHES[self.func]
+                    # another function with the same identifier may have
+                    # replaced the stored code (and wiped the cache) since
+                    and func_hash == _FUNC_CODE_WRITERS.get(writer_key)
+                ):
                     return True
         except TypeError:
             # Some callables are not hashable
@@ -1143,6 +1159,7 @@ class Memory(Logger):
             # table, results cached after this clear will be have cache miss
             # as the function code is not re-written.
             _FUNCTION_HASHES.clear()
+            _FUNC_CODE_WRITERS.clear()
 
     def reduce_size(self, bytes_limit=None, items_limit=None, age_limit=None):
         """Remove cache elements to make the cache fit its limits.
